@@ -6,7 +6,8 @@
  *   - setBoolParam / setIntParam / setRealParam / setRandomSeed: ghost-recording stubs,
  *   - strncmp / strncasecmp on string literals: loop-free executable models (n <= 12) that read exactly the
  *     bytes the C functions read, so CBMC's pointer checks apply to them,
- *   - strtol, std::stoi, std::stod, std::stoul: stubs returning harness-chosen values (may "throw").
+ *   - strtol, std::stoi, std::stod, std::stoul: stubs returning harness-chosen values; the std:: ones may "throw"
+ *     (flag model of try/catch, see below).
  * The scanning cursor `line` (a by-value char* parameter in _parseSettingsLine, a char* local in
  * parseSettingsString) is given the stub type LineCursor = (ghost buffer base, int offset) with exactly the
  * operations the bodies use (*line, line++, conversion to char*).  Reason: a loop contract must havoc the loop
@@ -36,7 +37,8 @@ extern "C" {
    extern int g_spec_bval, g_type_tag, g_name_seed_ok, g_toff, g_noff, g_voff;
    extern double g_set_rval; extern unsigned int g_set_uval;
    extern int g_stoi_ret; extern double g_stod_ret; extern unsigned long g_stoul_ret; extern long g_strtol4, g_strtol5;
-   extern int g_conv_ok, g_setter_ret;
+   extern int g_conv_ok, g_setter_ret, g_threw;
+   extern const unsigned char* gp_mp;                  /* prefix-match table, see strncmp(token, NameRef, n) */
    extern int g_slack; extern int g_k; extern char v_g;
    void token_clean(int off);                          /* contract.c: the token at this offset is properly terminated */
 }
@@ -87,30 +89,32 @@ static inline long strtol(const char* s, char** end, int base)
    return base == 4 ? g_strtol4 : g_strtol5;
 }
 
-/* std::stoi & co. throw std::invalid_argument / std::out_of_range when the text is not a number in range */
-#ifdef NOTHROW
-#define CONV_THROW(what) { __CPROVER_assert(0, what " throws std::invalid_argument/out_of_range, nobody catches it"); __CPROVER_assume(0); }
-#else
-#define CONV_THROW(what) VERIF_THROW()
-#endif
+/* std::stoi & co. throw std::invalid_argument / std::out_of_range when the text is not a number in range.  The
+ * slices wrap each call in try { } catch(const std::exception&) { ...; return false; }.  Exceptions are modelled
+ * with a flag: a throwing stub sets g_threw and returns, `try` is dropped and `catch(d)` becomes `if(g_threw)`.
+ * This is exact as long as the throwing call is the LAST statement of its try block (must_contain pins that); code
+ * that lets the "exception" pass (no handler) runs on with g_threw set, which the contract forbids. */
+#define try
+#define catch(decl) if(g_threw)
+#define CONV_THROW(what) { g_threw = 1; }
 namespace std
 {
 static inline int stoi(const char* s)
 {
    CSTRING_ARG(s); g_ncalls = 1; g_pvoff = (int)(s - gp_line);
-   if(!g_conv_ok) CONV_THROW("std::stoi")
+   if(!g_conv_ok) { CONV_THROW("std::stoi") return 0; }
    return g_stoi_ret;
 }
 static inline double stod(const char* s)
 {
    CSTRING_ARG(s); g_ncalls = 1; g_pvoff = (int)(s - gp_line);
-   if(!g_conv_ok) CONV_THROW("std::stod")
+   if(!g_conv_ok) { CONV_THROW("std::stod") return 0; }
    return g_stod_ret;
 }
 static inline unsigned long stoul(const char* s)
 {
    CSTRING_ARG(s); g_ncalls = 1; g_pvoff = (int)(s - gp_line);
-   if(!g_conv_ok) CONV_THROW("std::stoul")
+   if(!g_conv_ok) { CONV_THROW("std::stoul") return 0; }
    return g_stoul_ret;
 }
 }
@@ -127,6 +131,7 @@ struct NameRef
 {
    int kind; int idx;
    NameRef c_str() const { return *this; }
+   size_t size() const { return 3; }                  /* length of the registered name: only its being < SPX_SET_MAX_LINE_LEN matters */
 };
 template <int COUNT> struct NameTable
 {
@@ -137,16 +142,19 @@ template <int COUNT> struct NameTable
       NameRef r; r.kind = kind; r.idx = i; return r;
    }
 };
-/* strncmp(paramName, <table name>, SPX_SET_MAX_LINE_LEN): whether the token equals table entry idx is given by
- * an arbitrary (harness-chosen) match table; the token must be a C string inside the buffer */
+/* strncmp(paramName, <table name>, n).  n == SPX_SET_MAX_LINE_LEN (longer than any line): the result is 0 iff the
+ * token EQUALS table entry idx, as told by an arbitrary (harness-chosen) equality table.  Any smaller n compares a
+ * prefix only: the result is 0 iff the token equals the entry or - second arbitrary table - merely starts like it.
+ * The token must be a C string inside the buffer. */
 static inline int strncmp(const char* a, NameRef b, size_t n)
 {
    CSTRING_ARG(a);
-   __CPROVER_assert(n == SPX_SET_MAX_LINE_LEN, "name compare uses SPX_SET_MAX_LINE_LEN");
    g_ncalls = 1;
    g_pnoff = (int)(a - gp_line);
    const unsigned char* m = b.kind == 0 ? gp_mb : (b.kind == 1 ? gp_mi : gp_mr);
-   return m[b.idx] ? 0 : 1;
+   if(n >= SPX_SET_MAX_LINE_LEN)
+      return m[b.idx] ? 0 : 1;
+   return (m[b.idx] || gp_mp[b.idx]) ? 0 : 1;
 }
 
 struct Settings
@@ -235,12 +243,12 @@ struct H : Host
 #include "parseSettingsLine.inc"
    }
 };
-extern "C" int w_line(char* line, int lineNumber, const unsigned char* mb, const unsigned char* mi, const unsigned char* mr)
+extern "C" int w_line(char* line, int lineNumber, const unsigned char* mb, const unsigned char* mi, const unsigned char* mr, const unsigned char* mp)
 {
    VIN("len", g_len); VIN("bufsize", (int)__CPROVER_OBJECT_SIZE(line)); VIN_ARR8("line", line, (int)__CPROVER_OBJECT_SIZE(line));
    Settings st; st.boolParam.name.kind = 0; st.intParam.name.kind = 1; st.realParam.name.kind = 2;
    H h; h._currentSettings = &st; h.spxout = 0; h.line_ = line; h.lineNumber_ = lineNumber;
-   gp_line = line; gp_mb = mb; gp_mi = mi; gp_mr = mr;
+   gp_line = line; gp_mb = mb; gp_mi = mi; gp_mr = mr; gp_mp = mp;
    return h.body() ? 1 : 0;
 }
 #endif
@@ -274,11 +282,11 @@ struct H : Host
 #include "parseSettingsString_B.inc"
    }
 };
-extern "C" int w_string(char* string, const unsigned char* mb, const unsigned char* mi, const unsigned char* mr)
+extern "C" int w_string(char* string, const unsigned char* mb, const unsigned char* mi, const unsigned char* mr, const unsigned char* mp)
 {
    Settings st; st.boolParam.name.kind = 0; st.intParam.name.kind = 1; st.realParam.name.kind = 2;
    H h; h._currentSettings = &st; h.spxout = 0; h.string_ = string;
-   gp_src = string; gp_mb = mb; gp_mi = mi; gp_mr = mr;
+   gp_src = string; gp_mb = mb; gp_mi = mi; gp_mr = mr; gp_mp = mp;
    return h.body() ? 1 : 0;
 }
 #endif
